@@ -1,6 +1,7 @@
 package main
 
 import (
+	"go/token"
 	"sort"
 	"strings"
 
@@ -310,8 +311,15 @@ func newLockCtx(P *Prog, pkgs ...string) *LockCtx {
 		if f.Parent() != nil {
 			return false
 		}
-		// exported functions/methods can be called from outside
-		return f.Object() != nil && f.Object().Exported()
+		// exported functions, and exported methods of exported types, can be called from outside
+		if f.Object() == nil || !f.Object().Exported() {
+			return false
+		}
+		if f.Signature.Recv() != nil {
+			rn := recvName(f.Signature.Recv().Type())
+			return rn != "" && token.IsExported(rn)
+		}
+		return true
 	}
 	for _, f := range funcs {
 		lc.entry[f] = LockSet{}
